@@ -36,11 +36,15 @@ rule("C08.f", "a sum of step lengths over the steps of selected mapping rows fir
 rule("C08.g", "a take volume is prorated by (covered step lengths) / (calendar length of the whole period): the denominator comes from "
               "the period's own start and end, never from the grid (which only knows the part inside the horizon)", floor=1)
 
+rule("C08.k", "take restrictions collect the mapping rows of *every* step of the grid inside the period: the loop runs over the grid's own time "
+              "points (an asset with a coarser frequency has one row per fine step, each with its share of the coarse variable), not over the "
+              "restricted - possibly coarser - ones", floor=1, props=["C08", "C13"])
+
 VAR, MAP, ROW, TIME, TIMER, VARD = "VAR", "MAP", "ROW", "TIME", "TIMEr", "VARd"
 # what may index what
 OK_INDEX = {
     (VAR, ("label", VAR)), (TIME, ("label", TIME)), (MAP, ("mask", MAP)), (MAP, ("pos", MAP)),
-    (TIMER, ("pos", TIMER)), (TIMER, ("mask", TIMER)), (TIME, ("mask", TIME)), (ROW, ("mask", ROW)), (VAR, ("mask", VAR)),
+    (TIMER, ("pos", TIMER)), (TIMER, ("mask", TIMER)), (TIME, ("pos", TIME)), (TIME, ("mask", TIME)), (ROW, ("mask", ROW)), (VAR, ("mask", VAR)),
     # VARd = rows of a mapping de-duplicated by index: one row per variable in first-appearance order (= label order for
     # every frame eaopack builds: blocks are appended variable by variable)
     (VAR, ("mask", VARD)), (VARD, ("mask", VARD)),
@@ -370,7 +374,7 @@ def _rule_for(fn) -> str:
     return "C07.k"
 
 
-@analysis("spaces", ["C15.a", "C15.f", "C13.b", "C04.a", "C07.k", "C08.f", "C08.g"])
+@analysis("spaces", ["C15.a", "C15.f", "C13.b", "C04.a", "C07.k", "C08.f", "C08.g", "C08.k"])
 def run(ctx):
     p = ctx.p
     counts = {}
@@ -451,6 +455,21 @@ def run(ctx):
                                "share of the covered duration (max_take 100 over [Jan 6, Jan 16) on a horizon ending Jan 11: 100 instead of 50)"
                                % au.short(grid[0], 40) if grid else "the origin of the denominator was not recognised", node=d,
                                ok_detail="calendar length of the period")
+    dr = p.fn_opt("assets.define_restr")
+    if dr is None:
+        ctx.ob("C08.k", "assets", "define_restr", None, "define_restr not found")
+    else:
+        lps = [s0 for s0 in au.walk_stmts(dr.body) if isinstance(s0, ast.For) and isinstance(s0.iter, ast.Call) and au.call_name(s0.iter) == "enumerate"
+               and s0.iter.args and isinstance(s0.iter.args[0], ast.Attribute) and s0.iter.args[0].attr == "timepoints"]
+        if not lps:
+            ctx.ob("C08.k", dr, "loop over the time points of the period", None, "no `for i, t in enumerate(<grid>.timepoints)` found")
+        for lp in lps:
+            src = au.U(lp.iter.args[0])
+            ctx.ob("C08.k", dr, "for .. in enumerate(%s)" % src, "restricted" not in src,
+                   "the rows of a take period are collected by walking over %s: for an asset with a coarser frequency these are the coarse steps, "
+                   "and `time_step == restricted.I[i]` matches only the row of the first fine step of each - whose share of the coarse variable is "
+                   "1/24 for a full day but 1/12 for a day that the horizon cuts in half. The restriction then weighs the variables unequally: "
+                   "daily contract, take 72 over three days, horizon starting at noon: 36 are taken instead of 60" % src, node=lp)
     ctx.require(n_f >= 1, "the proration sum over covered steps (define_restr) was not found", rules=['C08.f', 'C08.g'])
 
     # ---------------------------------------------------------------- anchors that must not pass vacuously
